@@ -203,23 +203,41 @@ def run(ctx):
     for a in range(0, len(items), 1000):
         _observe_batch(items[a:a + 1000], recs, ctx)
     # ---- realistic mixed sync sections: tempo changes with signatures and anchors between them
+    from fractions import Fraction
     for sec in range(ctx.pick(60, 1500)):
         items = []
         t = 0
         last_b = 0
+        # (the map so far, to know what time the tempo map gives a tick: Moonscraper writes an anchor NEXT TO the tempo line
+        #  of its tick with the time it computed itself - equal to ours, or a few microseconds off; such an anchor decodes to
+        #  the microseconds WRITTEN like any other)
+        tempo_so_far, elapsed = [(0, 120000)], Fraction(0)
         for j in range(r.choice([5, 20, 60])):
             t += r.choice([0, 0, 1, 2, 50, 400])
-            kind = r.choice(["B", "TS", "TS", "A"])
-            if kind == "B":
+            kind = r.choice(["B", "TS", "TS", "A", "BA"])
+            if kind in ("B", "BA"):
                 if t <= last_b:
                     t = last_b + 1
+                elapsed += Fraction((t - last_b) * 60 * 10**9, tempo_so_far[-1][1] * 192)
                 last_b = t
-                items.append(_mk(f"M{sec}-{j}", "B", str(t), n=str(r.choice([60000, 120000, 120500, 999, r.randrange(1, 10**6)]))))
+                n_ = r.choice([60000, 120000, 120500, 999, r.randrange(1, 10**6)])
+                tempo_so_far.append((t, n_))
+                items.append(_mk(f"M{sec}-{j}", "B", str(t), n=str(n_)))
+                if kind == "BA":
+                    near = max(0, int(elapsed) + r.choice([-8, -3, -1, 0, 1, 1, 2, 3, 5, 8, 13]))
+                    if near < 10**15:
+                        items.append(_mk(f"M{sec}-{j}a", "A", str(t), us=str(near)))
             elif kind == "TS":
                 l = r.choice([None, None, 1, 2, 3, 4])
                 items.append(_mk(f"M{sec}-{j}", "TS", str(t), u=str(r.randrange(1, 33)), l=l))
             else:
                 items.append(_mk(f"M{sec}-{j}", "A", str(t), us=str(r.randrange(0, 10**9))))
+        if sec % 2:
+            # ... and the anchor line BEFORE the tempo line of its tick as well
+            for k_ in range(len(items) - 1):
+                if items[k_]["rec"]["kind"] == "B" and items[k_ + 1]["rec"]["kind"] == "A" and items[k_ + 1]["rec"]["id"].endswith("a"):
+                    if r.random() < 0.5:
+                        items[k_], items[k_ + 1] = items[k_ + 1], items[k_]
         _observe_batch(items, recs, ctx)
     _flush(ctx, recs)
     # block boundaries: the section laid out so that boundaries of every power-of-two block size (and of multiples of 1000)
